@@ -308,8 +308,9 @@ func weakenToConstraint(r interface{ Intn(int) int }, t cty.Type) cty.Type {
 	case t.IsObjectType():
 		atys := map[string]cty.Type{}
 		var opts []string
-		for k, v := range t.AttributeTypes() {
-			atys[k] = weakenToConstraint(r, v)
+		src := t.AttributeTypes()
+		for _, k := range sortedKeys(src) { // sorted: every random draw must be a function of the seed
+			atys[k] = weakenToConstraint(r, src[k])
 		}
 		for _, k := range sortedKeys(atys) {
 			if r.Intn(3) == 0 {
